@@ -32,9 +32,10 @@ VARIABLES tid, di, l,
           phase,    \* [request -> "init" | "called" | "got" | "body" | "ret"]
           cnt,      \* [connection -> request count last seen]
           inpool,   \* [connection -> listed by the pool when last seen]
+          pst,      \* [connection -> state string last seen]
           tainted,  \* connections hit by the evict || activate race
           hit       \* requests that saw a failure on a tainted connection
-vars == <<tid, di, l, phase, cnt, inpool, tainted, hit>>
+vars == <<tid, di, l, phase, cnt, inpool, pst, tainted, hit>>
 
 T  == Traces[tid]
 N  == Len(T.ev)
@@ -47,21 +48,21 @@ SeqToSet(s) == {s[i] : i \in DOMAIN s}
 TInit ==
   /\ tid \in 1..Len(Traces) /\ di \in 1..Len(DevChoices) /\ l = 1
   /\ phase = [r \in 1..8 |-> "init"]
-  /\ cnt = [c \in Conns |-> 0] /\ inpool = [c \in Conns |-> FALSE]
+  /\ cnt = [c \in Conns |-> 0] /\ inpool = [c \in Conns |-> FALSE] /\ pst = [c \in Conns |-> ""]
   /\ tainted = {} /\ hit = {}
 
 Step(e) == l <= N /\ Ev.e = e /\ l' = l + 1 /\ UNCHANGED <<tid, di>>
 
 Call == Step("Call") /\ phase[Ev.r] = "init"
-        /\ phase' = [phase EXCEPT ![Ev.r] = "called"] /\ UNCHANGED <<cnt, inpool, tainted, hit>>
+        /\ phase' = [phase EXCEPT ![Ev.r] = "called"] /\ UNCHANGED <<cnt, inpool, pst, tainted, hit>>
 
 Got == Step("Got") /\ phase[Ev.r] = "called"
        /\ Ev.tokok /\ Ev.route = "ok" /\ Ev.nsent <= 1                 \* Own, Once
-       /\ phase' = [phase EXCEPT ![Ev.r] = "got"] /\ UNCHANGED <<cnt, inpool, tainted, hit>>
+       /\ phase' = [phase EXCEPT ![Ev.r] = "got"] /\ UNCHANGED <<cnt, inpool, pst, tainted, hit>>
 
 Body == Step("Body") /\ phase[Ev.r] = "got"
         /\ Ev.bodyok                                                      \* Own
-        /\ phase' = [phase EXCEPT ![Ev.r] = "body"] /\ UNCHANGED <<cnt, inpool, tainted, hit>>
+        /\ phase' = [phase EXCEPT ![Ev.r] = "body"] /\ UNCHANGED <<cnt, inpool, pst, tainted, hit>>
 
 (* after every scheduling quantum: the pool and its connections through the public surface *)
 Obs ==
@@ -72,12 +73,15 @@ Obs ==
          pooled(c) == c \in SeqToSet(Ev.pool)
          activated(c) == Ev.cs[c].cnt > cnt[c]
          \* the race: activated while outside the pool / removed while freshly active
+         \* (at line grain the count is incremented a few lines before the state changes)
          raced == {c \in K : (activated(c) /\ ~pooled(c))
+                                \/ (~pooled(c) /\ Ev.cs[c].st = "active" /\ pst[c] # "active")
                                 \/ (inpool[c] /\ ~pooled(c) /\ Ev.cs[c].st = "active")}
      IN /\ raced # {} => Dev("ActivateEvicted")
         /\ tainted' = tainted \cup raced
         /\ cnt' = [c \in Conns |-> IF c \in K THEN Ev.cs[c].cnt ELSE cnt[c]]
         /\ inpool' = [c \in Conns |-> c \in K /\ pooled(c)]
+        /\ pst' = [c \in Conns |-> IF c \in K THEN Ev.cs[c].st ELSE pst[c]]
   /\ UNCHANGED <<phase, hit>>
 
 (* a network operation failed although nothing was injected *)
@@ -85,7 +89,7 @@ Fault ==
   /\ Step("Fault")
   /\ Ev.c \in tainted                                                    \* NoFail
   /\ hit' = hit \cup {Ev.r}
-  /\ UNCHANGED <<phase, cnt, inpool, tainted>>
+  /\ UNCHANGED <<phase, cnt, inpool, pst, tainted>>
 
 Ret ==
   /\ Step("Ret")
@@ -93,7 +97,7 @@ Ret ==
   /\ \/ Ev.out = "ok" /\ phase[Ev.r] = "body"
      \/ Ev.out = "exc" /\ Ev.r \in hit                                   \* NoFail ("internal" never passes)
   /\ phase' = [phase EXCEPT ![Ev.r] = "ret"]
-  /\ UNCHANGED <<cnt, inpool, tainted, hit>>
+  /\ UNCHANGED <<cnt, inpool, pst, tainted, hit>>
 
 End ==
   /\ Step("End")
@@ -103,7 +107,7 @@ End ==
   /\ Len(Ev.pool) <= T.cfg.maxConn
   /\ Len(Ev.idle) <= T.cfg.maxKeep
   /\ SeqToSet(Ev.open) \subseteq SeqToSet(Ev.pool)
-  /\ UNCHANGED <<phase, cnt, inpool, tainted, hit>>
+  /\ UNCHANGED <<phase, cnt, inpool, pst, tainted, hit>>
 
 TNext == Call \/ Got \/ Body \/ Obs \/ Fault \/ Ret \/ End
 TSpec == TInit /\ [][TNext]_vars
